@@ -73,6 +73,11 @@ fn gen_base(rng: &mut Rng) -> (Scenario, String) {
         mode = "decode";
         sc.handlers = observers();
     }
+    if rng.chance(1, 3) {
+        // tuning knob (hook): tiny text decoder buffer
+        sc.text_buf = rng.pick(&[8usize, 13, 16, 31, 64]);
+    }
+    sc.no_fast_text = rng.chance(1, 6);
     (sc, mode.to_string())
 }
 
